@@ -418,3 +418,16 @@ package vals
 //@   log fv Cmp CmpTotal Equal
 //@   exit [elements-compared-only-by-the-given-comparison] ncallsof("Cmp") == 0 && ncallsof("CmpTotal") == 0 && ncallsof("Equal") == 0
 //@   exit [first-difference-decides] forall k int :: 0 <= k && k < ncalls && callis(k, "fv") && callres(k).(Ordering) != CmpEqual ==> result == callres(k).(Ordering)
+
+// C09, maps: two maps are equal only if they have the same number of entries and
+// every entry of the first is matched in the second (so eq is symmetric: a map
+// is never equal to a strict superset of itself).
+//@ func equalMap
+//@   props C09
+//@   nosafety
+//@   purefv
+//@   opaque Equal
+//@   log Len
+//@   loop 1 invariant ncalls == 2 && callis(0, "Len") && callis(1, "Len") && callres(0).(int) == callres(1).(int)
+//@   exit [equal-maps-have-the-same-size] result ==> ncalls == 2 && callis(0, "Len") && callis(1, "Len") && callres(0).(int) == callres(1).(int)
+//@   exit [sizes-taken-of-both-maps] ncalls >= 2 ==> callarg(0) === x && callarg(1) === y
